@@ -1049,6 +1049,7 @@ where
                     runtime_types.extend(self.infer_runtime_type(aliased));
                 } else if let Some(TsInterfaceDecl {
                     body: TsInterfaceBody { body, .. },
+                    extends,
                     ..
                 }) = self.interfaces.get(&key)
                 {
@@ -1061,6 +1062,22 @@ where
                             runtime_types.insert(Some(atom!("Object")));
                         }
                     });
+                    // inherited members count too: `interface A extends B {}` has B's
+                    extends.iter().for_each(|parent| {
+                        if let Expr::Ident(ident) = &*parent.expr {
+                            runtime_types.extend(self.infer_runtime_type(&TsType::TsTypeRef(
+                                TsTypeRef {
+                                    type_name: TsEntityName::Ident(ident.clone()),
+                                    type_params: None,
+                                    span: DUMMY_SP,
+                                },
+                            )));
+                        }
+                    });
+                    if runtime_types.is_empty() {
+                        // an empty type list would reject everything
+                        runtime_types.insert(Some(atom!("Object")));
+                    }
                 } else {
                     match &*ident.sym {
                         "Array" | "Function" | "Object" | "Set" | "Map" | "WeakSet" | "WeakMap"
